@@ -1,7 +1,7 @@
 TEXT = {
  'C01': dict(
   design_ref='DESIGN.md §4 C01',
-  technique='model-based property testing: rapid-generated FAT12/16/32 operation histories (incl. fill/empty/refill and populate/empty cycles, reopen from bytes, start offsets) executed against the library and an in-memory reference tree; all listings and contents compared after every step',
+  technique='model-based property testing: rapid-generated FAT12/16/32 operation histories (incl. fill/empty/refill and populate/empty cycles, fill-then-remove-one-and-grow-another, reopen from bytes, start offsets) plus a bounded-exhaustive enumeration of every history of up to 4 (quick) / 6 (thorough) operations over an 18-symbol alphabet, executed against the library and an in-memory reference tree; all listings and contents compared after every step',
   level_text='Stateful generated search with a reference model as oracle; shrunk histories are saved as JSON replays. Exploration: samples histories, sizes and names.',
   level_note='Trusts the reference tree model (zero-filled gaps, case-insensitive names, mkdir -p) and the generated legal-name domain.'),
  'C03': dict(
@@ -11,7 +11,7 @@ TEXT = {
   level_note='Trusts the harness device (range guard + background pattern comparison).'),
  'C04': dict(
   design_ref='DESIGN.md §4 C04',
-  technique='model-based property testing: rapid-generated ext4 histories (multi-extent growth by interleaved appends, directory growth, short/long symlinks, attributes, fill, reopen) against an in-memory reference tree, compared after every step',
+  technique='model-based property testing: rapid-generated ext4 histories (multi-extent growth by interleaved appends, directory growth with interleaved data blocks, short/long symlinks, attributes, remove and reuse, fill to the last byte, fill-remove-grow, reopen) against an in-memory reference tree, compared after every step',
   level_text='Stateful generated search with a reference model; exploration.',
   level_note='Trusts the reference tree model (zero-filled gaps, exact names).'),
  'C05': dict(
@@ -21,17 +21,17 @@ TEXT = {
   level_note='Trusts e2fsprogs 1.47.0 as installed in the sandbox.'),
  'C06': dict(
   design_ref='DESIGN.md §4 C06',
-  technique='property-based testing: generated workspace trees x {plain, RockRidge, Joliet, both} x start offset finalized through the library, then read back with the library reader (exact names / level-1 mapping, contents, link targets) and with an independent PVD/directory-record walker (extents inside the image, no overlap, same contents)',
+  technique='property-based testing: generated workspace trees x {plain, RockRidge, Joliet, both} x start offset finalized through the library, then read back with the library reader (exact names / level-1 mapping, contents, link targets), with an independent PVD/directory-record walker (extents inside the image, no overlap, same contents) and with an independent Rock Ridge (SUSP) parser (exact names, kinds, link targets, contents)',
   level_text='Generated search with a round-trip oracle and an independent on-disk parser. Exploration.',
-  level_note='Trusts the harness ISO9660 walker (ECMA-119 layout) and the level-1 name rule stated in the harness.'),
+  level_note='Trusts the harness ISO9660 walker (ECMA-119 layout), its SUSP/Rock Ridge field parser and the level-1 name rule stated in the harness.'),
  'C07': dict(
   design_ref='DESIGN.md §4 C07',
-  technique='property-based testing: generated workspace trees finalized under 1-2 generated option variants (compressor, fragments, NoCompress*, block size, cache size, start) and read back; round trip against the source model, metamorphic agreement between variants, independent superblock parse against the device write log',
-  level_text='Generated search with round-trip + metamorphic + independent superblock oracles. Exploration.',
-  level_note='Trusts the harness superblock parser and the device write log.'),
+  technique='property-based testing: generated workspace trees finalized under 1-2 generated option variants (compressor, fragments, NoCompress*, block size, cache size, start) and read back by an independent squashfs reader written in the harness and by the library; round trip against the source model through both, metamorphic agreement between variants, superblock fields against the device write log; plus an enumeration that slides every inode layout byte by byte across the 8 KiB metadata-block boundary',
+  level_text='Generated search (and one enumerated family) with an independent-reader round trip, the library round trip, metamorphic and superblock oracles. Exploration.',
+  level_note='Trusts the harness squashfs reader (squashfs 4.0 layout; zlib from the standard library, third-party xz/lz4/zstd decoders) and the device write log.'),
  'C08': dict(
   design_ref='DESIGN.md §4 C08',
-  technique='property-based testing with an independent oracle: the C01 history generator drives the library while a harness-side FAT parser (BPB, both FATs, FSInfo, backup boot sector, directory walk, cluster ownership map) re-checks the raw bytes after every step',
+  technique='property-based testing with an independent oracle: the C01 history generator and the C01 bounded-exhaustive enumeration drive the library while a harness-side FAT parser (BPB, both FATs, FSInfo, backup boot sector, directory walk, cluster ownership map) re-checks the raw bytes after every step',
   level_text='Generated histories; after each step the raw image is parsed by a checker that shares no code with the library. Exploration.',
   level_note='Trusts the harness FAT checker (Microsoft FAT specification layout).'),
  'C02': dict(
@@ -91,7 +91,7 @@ TEXT = {
   level_note='Trusts the harness CRC recomputation and independent parser; allocation is measured with runtime/metrics.'),
  'C18': dict(
   design_ref='DESIGN.md §4 C18',
-  technique='fault enumeration guided by the read set: on 10 valid base images (fat12/16/32, ext4 plain / metadata_csum / made by mke2fs, iso9660 plain / Rock Ridge, squashfs uncompressed / gzip) every aligned 1/2/4/8-byte word that a clean open + walk + read-everything consumes (minus file payload) is replaced by each of 13 boundary values, plus FAT chain self-links, cycles, out-of-range, free and reserved links in either FAT copy; oracle = no panic, watchdog, no endless (0, nil) read, heap held at one moment <= 32 x image + 32 MiB',
+  technique='fault enumeration guided by the read set: on 11 valid base images (fat12/16/32, ext4 plain / metadata_csum / made by mke2fs / made by mke2fs with a hash-indexed directory, a sparse file and xattrs, iso9660 plain / Rock Ridge, squashfs uncompressed / gzip) every aligned 1/2/4/8-byte word that a clean open + walk + read-everything (+ GetXattr on ext4) consumes (minus file payload) is replaced by each of 13 boundary values, the values of the neighbouring words and, for 2/4-byte words, six mid-range values, plus FAT chain self-links, cycles, out-of-range, free and reserved links in either FAT copy, each with the volume opened with its real size and with size 0; oracle = no panic, watchdog, no endless (0, nil) read, heap held at one moment <= 32 x image + 32 MiB',
   level_text='Finite fault family enumerated per base image (quick: every 4th word with a seeded phase; thorough: all), in memory-capped child processes with a per-probe journal so that a dying child still yields a replay.',
   level_note='Single-word faults without checksum repair; the bases are small fixed trees (nested directories, fragmented files, an empty file, a long name, a symlink), not generated ones. Trusts the instrumented device read log to name what the reader consumes.'),
  'C10': dict(
